@@ -182,7 +182,7 @@ func ZZ_C11_H2() {
 		wire = append(wire, zzSecondResp...)
 	}
 	stream := zz.Choose("stream", 2) == 1
-	maxBody := []int{0, 2, 5}[zz.Choose("maxbody", 3)]
+	maxBody := []int{0, 2, 3, 5}[zz.Choose("maxbody", 4)] // 3 = exactly the body length
 	whole := zzClientRead(append([]byte(nil), wire...), nil, stream, maxBody, second)
 	zz.Cover("reached-assert", true)
 	// known finding, same root cause as C14-prefetch-swallows-pipelined (client direction): in
